@@ -177,6 +177,12 @@ def strings_HasSuffix (s p : List UInt8) : Bool := p.isSuffixOf s
 def strings_TrimPrefix (s p : List UInt8) : List UInt8 := if p.isPrefixOf s then s.drop p.length else s
 def strings_TrimSuffix (s p : List UInt8) : List UInt8 := if p.isSuffixOf s then s.take (s.length - p.length) else s
 
+/-- `strings.Join` -/
+def strings_Join : List (List UInt8) → List UInt8 → List UInt8
+  | [], _ => []
+  | [a], _ => a
+  | a :: rest, sep => a ++ sep ++ strings_Join rest sep
+
 /-- non-overlapping occurrences of a non-empty `sep`, left to right -/
 def countFrom (sep : List UInt8) : Nat → List UInt8 → Nat
   | 0, _ => 0
@@ -441,6 +447,11 @@ def buffer_WriteTo {δ : Type} (write : δ → List UInt8 → M (Int × Option E
     if r.2.1 != none then return (r.1, r.2.1, buf.drop r.1.toNat, r.2.2)
     if r.1 != len buf then return (r.1, io_ErrShortWrite, buf.drop r.1.toNat, r.2.2)
     return (r.1, none, [], r.2.2)
+
+/-- `binary.BigEndian.Uint16(b)`: the first two bytes, big end first; fewer than two bytes: index out of range -/
+def binary_BigEndian_Uint16 : List UInt8 → M UInt16
+  | b0 :: b1 :: _ => pure ((b0.toUInt16 <<< 8) ||| b1.toUInt16)
+  | _ => throw .index
 
 /-- `out, err := aead.Open(nil, …)`: on failure Go's AEADs return nil together with the error -/
 def nilOnErr (r : List UInt8 × Option Err) : List UInt8 × Option Err := (if r.2 == none then r.1 else [], r.2)
